@@ -316,9 +316,13 @@ impl Consume for SenderFlowState {
     /// does not have any effect. Thus, this IS cancel safe.
     async fn consume(&self, item: Self::Item) -> Self::Outcome {
         loop {
+            // Created before the credit check: a `Notified` future receives `notify_waiters()`
+            // from its creation on, so a flow applied between the check and the `.await` is
+            // not missed
+            let notified = self.notifier.notified();
             match consume_link_credit(&self.state().lock, item) {
                 Ok(outcome) => return outcome,
-                Err(_) => self.notifier.notified().await, // **NOT** cancel safe
+                Err(_) => notified.await, // **NOT** cancel safe
             }
         }
     }
